@@ -17,6 +17,8 @@
                Node, Hexagon, Cell, CellSquare, Rectangle, Circle, Cell3Sec (with its sector cells), Cluster and
                a CellWrap around a cell under any sequence of public mutators, with users present
                (a finite machine: ALL histories are explored)
+     ContainG, BorderG, LayoutG   the same for rotations / directions that are NOT multiples of 30 degrees
+               (multiple of 30 +- the angle of a Pythagorean triple: rational cos / sin, still exact)
      Place, PlaceCl, PProc   enumerate the (rel) cases: random user placement (cell / cluster route)
                and random point processes; the module supplies the exact polygon / radii the random
                outcome is judged with.
@@ -63,6 +65,7 @@ CONSTANTS Ops,       \* enabled operations (subset of the names above, lower cas
           URel,      \* DistMat: relative positions (points, in units of the cell radius) for add_user
           MutAlpha,  \* object machine: [base : seq of [kind, cls, w, h, cell, wrap], pos, wpos : seq of points, r : seq,
                      \*   rot : seq of degrees, off : seq of user offsets, polar : seq of [rho, k]]
+          Gens,      \* generic angles: sequence of [p, sgn] = sgn * (angle of the Pythagorean triple PyTab[p])
           RelCases,  \* sequence of (rel) cases, see Place / PProc
           Dev        \* [name |-> BOOLEAN]
 
@@ -307,6 +310,60 @@ Wrap ==
         /\ c' = [op |-> "wrap", cl |-> Clusters[i], rot |-> rot]
         /\ out' = WrapOut(Clusters[i], rot)
 
+(* ------------------------------------ generic angles --------------------------------------------- *)
+(* Multiples of 30 degrees are special for every shape here (a hexagon direction is a vertex or the middle of
+   an edge, rectangle edges make 0/30/60/90 degrees with the axes).  Generic angles that stay EXACT: the
+   angle theta of a Pythagorean triple (a, b, c) has cos = a/c, sin = b/c rational, so a rotation by
+   (multiple of 30 degrees) +- theta is still a map of Q(sqrt3)^2.  theta = 36.87, 53.13, 67.38, 61.93, 73.74, 16.26
+   degrees; together with the multiples of 30 this gives e.g. -6.87, 23.13, 97.38, -43.74 degrees.
+     ContainG  containment grid for a shape rotated by rot + g
+     BorderG   border points of that shape in the 12 directions 30 k + g' (g' another generic angle)
+     LayoutG   a cluster rotated by rot + g
+   The harness passes rot + sgn * atan2(b, a) in degrees as a float.                                  *)
+PyTab == << <<4, 3, 5>>, <<3, 4, 5>>, <<5, 12, 13>>, <<8, 15, 17>>, <<7, 24, 25>>, <<24, 7, 25>> >>
+PyCos(g) == QF(PyTab[g.p][1], PyTab[g.p][3])
+PySin(g) == QF(g.sgn * PyTab[g.p][2], PyTab[g.p][3])
+RotG(g, v) == <<QSub(QMul(PyCos(g), v[1]), QMul(PySin(g), v[2])), QAdd(QMul(PySin(g), v[1]), QMul(PyCos(g), v[2]))>>
+RotAboutG(g, ctr, p) == PAdd(ctr, RotG(g, PSub(p, ctr)))
+VertsG(s, rot, g) == LET V == Verts(s, rot) IN [i \in 1..Len(V) |-> RotAboutG(g, s.pos, V[i])]
+DirG(k, g) == RotG(g, Cis(k))
+ContainGOut(s, rot, g) ==
+   LET V == VertsG(s, rot, g)
+       K == PolyCtx(V, CaseDen(s, V))
+   IN  [verts |-> V, res |-> [n \in 1..NG |-> CodeZ(s, K, ZGrid(n, K.D))]]
+ContainG ==
+   /\ "containg" \in Ops /\ c.op = "init"
+   /\ \E i \in 1..Len(Shapes), rot \in Rots, j \in 1..Len(Gens) :
+        /\ Shapes[i].kind # "circle"
+        /\ c' = [op |-> "containg", s |-> Shapes[i], rot |-> rot, g |-> Gens[j], py |-> PyTab[Gens[j].p]]
+        /\ out' = ContainGOut(Shapes[i], rot, Gens[j])
+BorderGOut(s, rot, g, gd) ==
+   LET V == IF s.kind = "circle" THEN Verts(s, 0) ELSE VertsG(s, rot, g)
+       B == [k \in 1..12 |->
+               IF s.kind = "circle" THEN PAdd(s.pos, PScale(s.r, DirG(k - 1, gd)))
+               ELSE PAdd(s.pos, PScale(FirstHit(s.pos, DirG(k - 1, gd), V), DirG(k - 1, gd)))]
+   IN  [verts |-> V, bp |-> B, half |-> [k \in 1..12 |-> Scaled(s, B[k], Half)],
+        zero |-> [k \in 1..12 |-> Scaled(s, B[k], Q0)], tiny |-> [k \in 1..12 |-> Scaled(s, B[k], Tiny)]]
+BorderG ==
+   /\ "borderg" \in Ops /\ c.op = "init"
+   /\ \E i \in 1..Len(Shapes), rot \in Rots, j \in 1..Len(Gens) :
+        LET gd == Gens[(j % Len(Gens)) + 1]
+        IN  /\ RotOk(Shapes[i], rot)
+            /\ c' = [op |-> "borderg", s |-> Shapes[i], rot |-> rot, g |-> Gens[j], py |-> PyTab[Gens[j].p],
+                     gd |-> gd, pyd |-> PyTab[gd.p]]
+            /\ out' = BorderGOut(Shapes[i], rot, Gens[j], gd)
+LayoutGOut(cl, rot, g) ==
+   LET P == [k \in 1..cl.n |-> RotAboutG(g, cl.pos, LayoutCells(cl, rot)[k])]
+   IN  [cells  |-> P,
+        vfirst |-> VertsG(CellShape(cl, P[1]), rot, g),
+        vlast  |-> VertsG(CellShape(cl, P[cl.n]), rot, g),
+        rad2   |-> Rad2(CellShape(cl, P[1]))]
+LayoutG ==
+   /\ "layoutg" \in Ops /\ c.op = "init"
+   /\ \E i \in 1..Len(Clusters), rot \in CRots, j \in 1..Len(Gens) :
+        /\ c' = [op |-> "layoutg", cl |-> Clusters[i], rot |-> rot, g |-> Gens[j], py |-> PyTab[Gens[j].p]]
+        /\ out' = LayoutGOut(Clusters[i], rot, Gens[j])
+
 (* ------------------------------------ objects under mutation ------------------------------------ *)
 (* Node, Hexagon, Cell, CellSquare, Rectangle, Circle, Cell3Sec, a Cluster, and a CellWrap around a cell
    are objects that can be changed after construction.  EVERY public way of changing them is an action:
@@ -347,6 +404,7 @@ MutOut(st, store) ==
    LET V == IF HasVerts(st.kind) THEN MutVerts(st, store) ELSE <<>>
        K == PolyCtx(V, QLcm(PolyDen(V), ShapeDen(MutShape(st))))
    IN  [verts |-> V, store |-> store,
+        rad2  |-> IF HasVerts(st.kind) THEN Rad2(MutShape(st)) ELSE Q0,      \* (library radius)^2, for min_dist_ratio
         secv  |-> IF st.kind = "sec3" THEN [j \in 1..3 |-> HexAt(store.secc[j], store.secr, store.secrot)] ELSE <<>>,
         \* containment as the object decides it (its own polygon / disc)
         res   |-> IF HasVerts(st.kind) THEN [n \in 1..NG |-> CodeZ(MutShape(st), K, ZGrid(n, K.D))] ELSE <<>>,
@@ -524,11 +582,11 @@ Idle == [op |-> "init"]
 Init == c = Idle /\ out = <<>>
 Next == Contain \/ Border \/ Layout \/ DistMat \/ Wrap \/ MutNew \/ MutSetPos \/ MutMoveRel \/ MutMovePolar \/ MutSetRot \/ MutSetRad \/ MutAddUser \/ MutDelUsers
           \/ WrapSetPos \/ WrapMoveRel \/ WrapMovePolar \/ WrapSetRaises
-          \/ Place \/ PlaceCl \/ PProc
+          \/ Place \/ PlaceCl \/ PProc \/ ContainG \/ BorderG \/ LayoutG
 Spec == Init /\ [][Next]_vars
 
 (* ------------------------------------ properties ------------------------------------------------ *)
-TypeOK == c.op \in {"init", "contain", "border", "layout", "distmat", "wrap", "mut", "place", "placecl", "pproc"}
+TypeOK == c.op \in {"init", "contain", "border", "layout", "distmat", "wrap", "mut", "place", "placecl", "pproc", "containg", "borderg", "layoutg"}
 
 \* --- vertices
 \* a full turn changes nothing; the vertices are at the documented distances from the centre
@@ -713,6 +771,51 @@ MutFresh ==
                    /\ out.wverts = Translate(V, PSub(c.wpos, c.pos))
                    /\ out.wusers = UsersAt(c.wpos, c.offs)
                    /\ \A k \in 1..Len(out.wusers) : ExpInside(wshape, c.rot, out.wusers[k])
+
+\* --- the geometry is scale free: a similarity p -> 2 p + o applied to shape and query point changes no decision
+\* (the harness transports the emitted cases to other scales - 2^-10, 2^9, 2^13 with large offsets - by this law)
+SimilarityLaw ==
+   c.op = "contain" =>
+     LET s  == c.s
+         o  == <<QI(1), QF(-1, 2)>>
+         s2 == [s EXCEPT !.pos = PAdd(PScale(QI(2), s.pos), o), !.r = QMulI(2, s.r), !.w = QMulI(2, s.w), !.h = QMulI(2, s.h)]
+         V2 == Verts(s2, c.rot)
+         K2 == PolyCtx(V2, CaseDen(s2, V2))
+     IN  /\ V2 = [i \in 1..Len(out.verts) |-> PAdd(PScale(QI(2), out.verts[i]), o)]
+         /\ \A n \in 1..NG : (n % 4 = 0 /\ out.res[n] # 2) =>
+               ((out.res[n] = 1) <=> ExpInsideZ(s2, K2, ZPt(PAdd(PScale(QI(2), GridPt(n)), o), K2.D)))
+
+\* --- generic angles: the same laws at rotations / directions that are no multiples of 30 degrees
+GenericAngleLaws ==
+   /\ c.op = "containg" =>
+        LET s == c.s
+            V == out.verts
+            K == PolyCtx(V, CaseDen(s, V))
+            k == BaseKind(s.kind)
+        IN  \* a rotation keeps distances: the vertices are where the documented construction puts them
+            /\ k = "hex" => \A i \in 1..6 : Dist2(V[i], s.pos) = QSq(s.r) /\ Dist2(V[i], V[NextIdx(V, i)]) = QSq(s.r)
+            /\ k \in {"rect", "square"} => /\ Dist2(V[1], V[2]) = QSq(s.w)
+                                           /\ QIsZero(Dot(PSub(V[2], V[1]), PSub(V[3], V[2])))
+            /\ Centroid(V) = s.pos
+            \* convex polygons: winding number and same-side test coincide
+            /\ Convex(s.kind) => \A n \in 1..NG : out.res[n] # 2 => ((out.res[n] = 1) <=> ZConvexInside(K.E, ZGrid(n, K.D)))
+   /\ c.op = "borderg" =>
+        \A k \in 1..12 :
+          LET b == out.bp[k]
+              d == PSub(b, c.s.pos)
+              u == DirG(k - 1, c.gd)
+          IN  /\ IF c.s.kind = "circle" THEN Dist2(b, c.s.pos) = QSq(c.s.r) ELSE OnBoundary(out.verts, b)
+              /\ QIsZero(Cross(d, u)) /\ QIsPos(Dot(d, u))
+              /\ Norm2(u) = Q1
+              /\ c.s.kind # "circle" => Cardinality(RayHits(c.s.pos, u, out.verts)) = 1
+              /\ out.zero[k] = c.s.pos
+   /\ c.op = "layoutg" =>
+        LET cl == c.cl
+            P  == out.cells
+        IN  /\ Centroid(P) = cl.pos
+            /\ \A i, j \in 1..cl.n : i < j => QLe(Touch2(cl), Dist2(P[i], P[j]))
+            /\ cl.n > 1 => \A i \in 1..cl.n : \E j \in 1..cl.n : j # i /\ Dist2(P[i], P[j]) = Touch2(cl)
+            /\ out.vlast = Translate(out.vfirst, PSub(P[cl.n], P[1]))
 
 \* --- cluster-level placement: the meaning of the call does not depend on how its arguments are written
 PlaceClLaws ==
